@@ -1984,3 +1984,100 @@ LIBFUNCS.update({
     "torch.random.seed": lib_event("torch.random.seed", "int"),
     "np.random.seed": lib_event("np.random.seed"),
 })
+
+
+# ----------------------------------------------------------------------------- row-major index algebra (np.meshgrid / ravel / np.vstack)
+_UNRAVEL = None
+
+
+def unravel_fns():
+    """unravel_row(k, C) = k // C, unravel_col(k, C) = k % C, ravel_index(i, j, C) = i * C + j.  Uninterpreted for the solver: what it
+    knows about them are the axioms of `unravel_axioms`, which are theorems of these definitions (lemmas/Lattice.lean: unravel_*)."""
+    global _UNRAVEL
+    if _UNRAVEL is None:
+        I_ = z3.IntSort()
+        _UNRAVEL = (z3.Function("unravel_row", I_, I_, I_), z3.Function("unravel_col", I_, I_, I_), z3.Function("ravel_index", I_, I_, I_, I_))
+    return _UNRAVEL
+
+
+def unravel_axioms(R, C):
+    row, col, flat = unravel_fns()
+    R, C = to_z3(as_int(R)), to_z3(as_int(C))
+    k, i, j = z3.Int(V.fresh_name("uk")), z3.Int(V.fresh_name("ui")), z3.Int(V.fresh_name("uj"))
+    N = R * C
+    a1 = z3.ForAll([i, j], z3.Implies(z3.And(C > 0, i >= 0, j >= 0, j < C),
+                                      z3.And(row(flat(i, j, C), C) == i, col(flat(i, j, C), C) == j, flat(i, j, C) >= 0)), patterns=[flat(i, j, C)])
+    body2 = z3.Implies(z3.And(C > 0, k >= 0), z3.And(flat(row(k, C), col(k, C), C) == k, col(k, C) >= 0, col(k, C) < C, row(k, C) >= 0))
+    a2 = z3.ForAll([k], body2, patterns=[row(k, C)])
+    a2b = z3.ForAll([k], body2, patterns=[col(k, C)])
+    a3 = z3.ForAll([k], z3.Implies(z3.And(C > 0, k >= 0, k < N), row(k, C) < R), patterns=[row(k, C)])
+    a4 = z3.ForAll([i, j], z3.Implies(z3.And(i >= 0, i < R, j >= 0, j < C), flat(i, j, C) < N), patterns=[flat(i, j, C)])
+    return [a1, a2, a2b, a3, a4]
+
+
+def np_meshgrid(interp, st, args, kwargs, node):
+    """np.meshgrid(range(r), range(c), indexing="ij"): two (r, c) arrays, the first holding the row index and the second the column index
+    of each position (trusted library contract)"""
+    I = _I()
+    M = _M()
+    if kwargs.get("indexing") != "ij" or len(args) != 2 or set(kwargs) - {"indexing"}:
+        raise Outside("np.meshgrid other than two ranges with indexing='ij'", node)
+    dims = []
+    for a in args:
+        if not (isinstance(a, I.SymRange) and isinstance(a.lo, int) and a.lo == 0):
+            raise Outside("np.meshgrid of something other than range(n)", node)
+        dims.append(a.hi)
+    rows = M.grid_lambda(dims, "int", lambda idx: idx[0])
+    cols = M.grid_lambda(dims, "int", lambda idx: idx[1])
+    return (rows, cols)
+
+
+def m_ravel(interp, st, base, base_node, args, kwargs, node):
+    """a.ravel() of a 2-d array in C order: out[k] = a[k // C, k % C], length R * C (trusted library contract)"""
+    M = _M()
+    if args or kwargs:
+        raise Outside("ravel with arguments", node)
+    if isinstance(base, Arr):
+        return Arr((len(base.flat),), list(base.flat), base.kind)
+    if not (isinstance(base, Grid) and base.rank == 2):
+        raise Outside("ravel outside 2-d arrays", node)
+    R, C = base.dims
+    if isinstance(R, int) and isinstance(C, int):
+        return Arr((R * C,), [base.select([i, j]) for i in range(R) for j in range(C)], base.kind)
+    row, col, _ = unravel_fns()
+    for ax in unravel_axioms(R, C):
+        st.assume(ax)
+    Cz = to_z3(as_int(C))
+    return M.grid_lambda([M.s_mul(R, C)], base.kind, lambda idx: base.select([row(idx[0], Cz), col(idx[0], Cz)]), base.dtype)
+
+
+def np_vstack(interp, st, args, kwargs, node):
+    """np.vstack((a, b, ...)) of 1-d arrays of one length n: the (len, n) array whose rows are the arguments (trusted library contract)"""
+    M = _M()
+    parts = args[0] if args else None
+    if kwargs or len(args) != 1 or not isinstance(parts, (tuple, list)) or not parts:
+        raise Outside("np.vstack other than of one tuple of arrays", node)
+    if all(isinstance(p, Arr) and p.ndim == 1 for p in parts) and len({p.shape[0] for p in parts}) == 1:
+        n = parts[0].shape[0]
+        return Arr((len(parts), n), [x for p in parts for x in p.flat], parts[0].kind)
+    if not all(isinstance(p, Grid) and p.rank == 1 and p.kind == parts[0].kind for p in parts):
+        raise Outside("np.vstack of values other than 1-d arrays of one kind", node)
+    n = parts[0].dims[0]
+    for p in parts[1:]:
+        same = (p.dims[0] is n) or (is_sym(p.dims[0]) and is_sym(n) and p.dims[0].eq(n)) or (isinstance(n, int) and isinstance(p.dims[0], int) and n == p.dims[0])
+        if not same:
+            # numpy raises ValueError on a length mismatch: an obligation of the caller
+            interp.ctx.oblige(st, to_z3(as_int(p.dims[0])) == to_z3(as_int(n)), f"vstack-same-length@{getattr(node, 'lineno', '?')}", node, "assert")
+
+    def fn(idx):
+        out = parts[-1].select([idx[1]])
+        for t in range(len(parts) - 2, -1, -1):
+            out = z3.If(idx[0] == t, parts[t].select([idx[1]]), out)
+        return out
+
+    return M.grid_lambda([len(parts), n], parts[0].kind, fn, parts[0].dtype)
+
+
+LIBFUNCS.update({"np.meshgrid": np_meshgrid, "np.vstack": np_vstack})
+METHODS[("Grid", "ravel")] = m_ravel
+METHODS[("Arr", "ravel")] = m_ravel
